@@ -426,12 +426,22 @@ void h_overflow_detect(void) {
   make_page(false, NBLK);
   size_t k = nd_size(); ASSUME(k < NBLK && st[k] == LIVE);
   PG.flags.x.has_aligned = 0;
-  size_t req = nd_size(); ASSUME(req < BS - MI_PADDING_SIZE);
+  size_t req = nd_size(); ASSUME(req <= BS - MI_PADDING_SIZE);          /* including requests that fill their size class exactly (no fill bytes) */
   pad_live(k, req);
   size_t delta = (BS - MI_PADDING_SIZE) - req;
-  size_t off = nd_size(); ASSUME(off < (delta > MI_MAX_ALIGN_SIZE ? MI_MAX_ALIGN_SIZE : delta));
-  uint8_t v = nd_u8(); ASSUME(v != MI_DEBUG_PADDING);
-  ((uint8_t*)blk(k))[req + off] = v;              /* the program writes past its requested size */
+  size_t maxpad = (delta > MI_MAX_ALIGN_SIZE ? MI_MAX_ALIGN_SIZE : delta);
+  /* the program writes one foreign byte past its requested size: into the checked fill bytes, or (any request, in particular an exact fit,
+     where it is the very next byte) into one of the canary bytes of the padding record */
+#if TAMPER == 0
+  size_t pos = nd_size(); ASSUME(pos >= req && pos < req + maxpad);
+#else
+  size_t pos = nd_size(); ASSUME(pos >= BS - MI_PADDING_SIZE && pos < BS - MI_PADDING_SIZE + sizeof(uint32_t));
+#endif
+  uint8_t v = nd_u8(); ASSUME(v != ((uint8_t*)blk(k))[pos]);
+  ((uint8_t*)blk(k))[pos] = v;
+#if TAMPER == 1
+  if (delta == 0) WITNESS("exact fit");
+#endif
   /* the first word must not look like a free-list link into the page (that is the double-free heuristic) */
   mi_free(blk(k));
   bool saw_efault = false; for (int i = 0; i < n_err && i < 4; i++) if (errs[i] == EFAULT) saw_efault = true;
